@@ -12,6 +12,8 @@ decided with spec/Pool.tla, the driver `vdrive pool` and spec/TracePool.tla.
 import concurrent.futures
 import json
 import os
+import shutil
+import uuid
 import vlib
 
 
@@ -19,12 +21,19 @@ import vlib
 def tlc_trace(path, timeout=3000, heap="6g"):
     """TracePool.tla over one trace file.  A TLC process that dies without a result (killed from outside, the
     machine is shared) is started once more; a second failure is reported as machinery failure by the caller."""
+    # vlib.tlc copies the config next to the spec under a name made of module, pid and config name and removes
+    # it afterwards; trace validations run side by side in this process, so each gets a config name of its own
+    sc = vlib.spec_copy()
+    name = "TracePool_%s.cfg" % uuid.uuid4().hex[:10]
+    shutil.copyfile(os.path.join(sc, "cfg", "TracePool.cfg"), os.path.join(sc, "cfg", name))
     for attempt in (0, 1):
-        tr = vlib.tlc("TracePool", "TracePool.cfg", env={"VERIF_TRACE": path, "VERIF_SEED": vlib.seed()}, workers=1,
+        tr = vlib.tlc("TracePool", name, env={"VERIF_TRACE": path, "VERIF_SEED": vlib.seed()}, workers=1,
                       deadlock=False, timeout=timeout, heap=heap)
         if not tr.error or tr.kind == "timeout":
             break
-        vlib.log("TracePool run failed (%s rc=%s), %s" % (tr.kind, tr.rc, "retrying" if attempt == 0 else "giving up"))
+        errs = [ln for ln in tr.out.splitlines() if "rror" in ln or "xception" in ln][:4]
+        vlib.log("TracePool run failed (%s rc=%s: %s), %s" % (tr.kind, tr.rc, " | ".join(errs)[:400],
+                                                           "retrying" if attempt == 0 else "giving up"))
     return tr
 
 
